@@ -81,7 +81,15 @@ Example C13_example :
   w_steps (b_w (run_model [(0, 2)] 5)) = 5 /\
   report_steps 2 (b_d (run_model k 5)) = [0; 2; 3] /\
   length (run_rows 5 2 (0, 0, k)) = 6%nat /\
-  last_opt (dedup_first Z.eqb (d_csteps (b_d (run_model k 5)))) = Some 3.
+  last_opt (dedup_first Z.eqb (d_csteps (b_d (run_model k 5)))) = Some 3 /\
+  (* two collects at construction and two inside every step, a model-level change between them:
+     the row of a step carries the LAST collection made at that step *)
+  let k2 := [(0, 1); (2, 2); (3, 2)] in
+  d_csteps (b_d (run_model k2 1)) = [0; 0; 1; 1] /\
+  aget 3 (d_mvars (b_d (run_model k2 1))) = Some [SInt 0; SInt 1; SInt 1; SInt 3] /\
+  aget 3 (model_data (b_d (run_model k2 1)) 0) = Some (SInt 1) /\
+  aget 3 (model_data (b_d (run_model k2 1)) 1) = Some (SInt 3) /\
+  length (run_rows 1 1 (0, 0, k2)) = 2%nat.
 Proof.
   cbv zeta. split; [vm_compute; reflexivity|]. split.
   - intros p [H|[H|[]]]; subst; simpl; repeat constructor; simpl; intuition congruence.
